@@ -573,10 +573,12 @@ CodegenResult Theo::gen(Theo::AST in) {
       .funcAddrs = {},
       .labels = {},
       .backpatching_todo = {},
+      // no source position is known yet: errors raised before the first
+      // positioned node carry the documented '-' placeholder
       .fs =
           {
-              .name = "#root_file_context",
-              .line = 0,
+              .name = "-",
+              .line = -1,
           },
   };
 
